@@ -12,13 +12,16 @@ Functions (all match `--only tl_`):
 Clause ids (`what`) - operation sequences:
   len, getitem_int, getitem_negative, getitem_out_of_range_raises, item_class, slice, iter,
   first_offset, last_offset, first_last_offset, hold_head_tail_offset, sorted, append_<form>,
-  after, before, between, hold_after, hold_before, hold_between, result_class, no_exception_<kind>
+  after, before, between, hold_after, hold_before, hold_between, result_class, no_exception_<kind>,
+  receiver_unchanged (the list an operation is called on still holds the same row sequence afterwards),
+  append_operand_unchanged
 Clause ids - constructors:
   empty_exact_fields (suspected F7: extra `index` column), empty_n_rows, empty_defaults,
   empty_list_default_not_nan (suspected F8), empty_list_exact_fields, from_items_exact_fields, from_items_rows,
   from_item_exact_fields, from_dict_exact_fields, from_dict_rows, from_dict_missing_gets_default,
   from_dict_list_default_filled, from_list_exact_fields, from_df_exact_fields, item_carries_row_values,
-  from_series_carries_row_values, from_series_ignores_other_names
+  from_series_carries_row_values, from_series_ignores_other_names,
+  getitem_numpy_int (L[numpy integer] is the row a plain sequence gives for that index)
 """
 from __future__ import annotations
 
@@ -86,8 +89,18 @@ CONTENTS = {
     "negative_fractional": ([250.25, -100.5, 0.0, -0.75, 1000.125, 99.999], [0.25, 100.5, 0.75, 0.75, 10.0, 0.001]),
     # offsets and tails sitting exactly on the filter bounds 0 / 50 / 100
     "ties_at_bound": ([100.0, 0.0, 50.0, 100.0, 0.0, 200.0, 25.0, -50.0], [0.0, 100.0, 50.0, 100.0, 50.0, 10.0, 25.0, 50.0]),
+    # added contents ("light": a smaller set of sequences per class in the operation checks)
+    # whole-number offsets / lengths given as python ints (integer-typed columns where the constructor keeps them)
+    "int_offsets": ([100, 0, 50, 100, -50, 0], [0, 100, 50, 50, 150, 0]),
+    # very large and very small magnitudes, sub-millisecond fractions, values needing > 6 significant digits
+    "large_fine": ([1000000000.5, -1000000000.25, 1000000000000.0, 0.001, 1234567.891, 0.0005], [1000000000.0, 0.5, 0.0, 0.001, 0.0004, 99.9995]),
+    # the n default rows of Cls.empty(3): all fields at their declared defaults, all offsets equal
+    "default_rows": (None, None),
 }
-BUILDS = ["items", "from_dict", "df_gappy"]
+LIGHT_CONTENTS = ("int_offsets", "large_fine", "default_rows")
+# how the list under test is made: from items; from_dict of records / of columns; from a DataFrame with permuted gappy labels,
+# with reversed labels, with DUPLICATE labels, with the columns in another order; as a copy of another list
+BUILDS = ["items", "from_dict", "df_gappy", "df_reversed", "from_dict_columns", "df_dup_labels", "df_shuffled_cols", "copy"]
 
 
 def _value(name, dtype, default, k):
@@ -115,8 +128,12 @@ def _value(name, dtype, default, k):
 
 
 def _content_rows(cls, content, base=0):
+    import copy
+
     offs, lens = CONTENTS[content]
     decl = _declared(cls)
+    if content == "default_rows":
+        return [{n: copy.deepcopy(dv) for n, (dt, dv) in decl.items()} for _ in range(3)]
     rows = []
     for k, (o, ln) in enumerate(zip(offs, lens)):
         r = {}
@@ -139,15 +156,30 @@ def _build_list(cls, content, build):
 
     recs = _content_rows(cls, content)
     item = cls._item_class()
+    if content == "default_rows" and build in ("items", "from_dict", "from_dict_columns"):
+        return cls.empty(len(recs))
     if build == "items" or not recs:
         return cls([item(**r) for r in recs])
     if build == "from_dict":
         return cls.from_dict(recs)
+    if build == "from_dict_columns":
+        return cls.from_dict({k: [r[k] for r in recs] for k in recs[0]})
+    if build == "copy":
+        return cls(cls.from_dict(recs))
+    n = len(recs)
+    cols = list(recs[0].keys())
     if build == "df_gappy":
-        n = len(recs)
         labels = [(7 * i + 3) % (3 * n + 1) + 10 for i in range(n)]
-        return cls(pd.DataFrame(recs, index=labels, columns=list(recs[0].keys())))
-    raise ValueError(build)
+    elif build == "df_reversed":
+        labels = list(range(n - 1, -1, -1))
+    elif build == "df_dup_labels":
+        labels = [i // 2 for i in range(n)]
+    elif build == "df_shuffled_cols":
+        labels = list(range(n))
+        cols = cols[1:][::-1] + cols[:1]
+    else:
+        raise ValueError(build)
+    return cls(pd.DataFrame(recs, index=labels, columns=cols))
 
 
 def _operand_rows(cls):
@@ -237,18 +269,60 @@ def _o_filter(rows, t, inc, with_length, lower):
     return out
 
 
+def _num(x):
+    """JSON-able number of an op -> the value handed to the library: python float / int, or a numpy scalar for
+    {"np": "float64" | "int64" | "float32", "v": value}"""
+    if isinstance(x, dict):
+        import numpy as np
+
+        return getattr(np, x["np"])(x["v"])
+    return x
+
+
+def _pl(x):
+    """... and the plain python number the oracle compares with"""
+    return x["v"] if isinstance(x, dict) else x
+
+
 def _apply(L, rows, op, cls):
     """One chainable operation on the real list and on the plain rows.
-    -> (L', rows', failures [(what, detail)]); L' None when the real call raised."""
+    -> (L', rows', failures [(what, detail)]); L' None when the real call raised.
+    Also: the receiver (and the operand of append) must hold the same row sequence after the call as before
+    (a plain sequence is not changed by slicing, sorted(), +, or a filter)."""
+    before = _cells(L)
+    L2, rows2, fails = _apply0(L, rows, op, cls)
+    try:
+        now = _cells(L)
+        if not _cells_eq(now, before):
+            fails = fails + [("receiver_unchanged", f"{op}: the list the operation was called on held {_show(rows)} before the call and holds {_show(_rows_of(L))} after it")]
+    except Exception as ex:  # noqa
+        fails = fails + [("receiver_unchanged", f"{op}: reading the receiver after the call raised {type(ex).__name__}: {ex}")]
+    return L2, rows2, fails
+
+
+def _cells(L):
+    """(field names, rows as lists of cell values) - a cheap copy of the row sequence a list holds"""
+    df = L.df
+    return [str(c) for c in df.columns], [[list(v) if isinstance(v, list) else v for v in row] for row in df.to_numpy(dtype=object).tolist()]
+
+
+def _cells_eq(a, b):
+    if a[0] != b[0] or len(a[1]) != len(b[1]):
+        return False
+    return all(len(x) == len(y) and all(_veq(u, v) for u, v in zip(x, y)) for x, y in zip(a[1], b[1]))
+
+
+def _apply0(L, rows, op, cls):
     kind = op[0]
     fails = []
     hold = _is_hold(cls)
+    kw = op[-1] == "kw"  # call with keyword arguments instead of positional ones
     try:
         if kind == "slice":
-            s = slice(op[1], op[2], op[3])
-            got, want, what = L[s], rows[s], "slice"
+            s = slice(_num(op[1]), _num(op[2]), _num(op[3]))
+            got, want, what = L[s], rows[slice(_pl(op[1]), _pl(op[2]), _pl(op[3]))], "slice"
         elif kind == "sorted":
-            got = L.sorted(op[1]) if op[1] is not None else L.sorted()
+            got = (L.sorted(reverse=op[1]) if kw else L.sorted(op[1])) if op[1] is not None else L.sorted()
             rev = bool(op[1])
             g = _rows_of(got)
             offs = [r["offset"] for r in g]
@@ -283,9 +357,14 @@ def _apply(L, rows, op, cls):
                 x, xr = L, list(rows)
             else:
                 raise ValueError(form)
-            got = L.append(x, sort=True) if sort else L.append(x)
+            x_before = [dict(r) for r in xr]
+            got = L.append(x, sort=True) if sort else (L.append(x, sort=False) if kw else L.append(x))
             what = "append_" + form + ("_sort" if sort else "")
             want = rows + xr
+            if form != "self":
+                x_now = x.to_dict("records") if form == "dataframe" else [x.to_dict()] if form == "series" else [x.data.to_dict()] if form == "item" else x.df.to_dict("records")
+                if not _rows_eq(x_now, x_before):
+                    fails.append(("append_operand_unchanged", f"{op}: the appended operand held {_show(x_before)} before the call and holds {_show(x_now)} after it"))
             if sort:
                 g = _rows_of(got)
                 offs = [r["offset"] for r in g]
@@ -295,31 +374,41 @@ def _apply(L, rows, op, cls):
                     fails.append(("result_class", f"append returned {type(got).__name__} for {type(L).__name__}"))
                 return got, (g if not fails else sorted(want, key=lambda r: r["offset"])), fails
         elif kind == "after":
-            t, inc = op[1], op[2]
+            t, inc, tp = _num(op[1]), op[2], _pl(op[1])
             if hold and op[3] is not None:
-                got, want, what = L.after(t, include_end=inc, include_tail=op[3]), _o_filter(rows, t, inc, op[3], True), "hold_after"
+                # include_end left at its default (False) when inc is None
+                got = L.after(t, include_end=inc, include_tail=op[3]) if inc is not None else L.after(t, include_tail=op[3])
+                want, what = _o_filter(rows, tp, bool(inc), op[3], True), "hold_after"
             else:
-                got = L.after(t, inc) if inc is not None else L.after(t)
-                want, what = _o_filter(rows, t, bool(inc), False, True), "after"
+                got = (L.after(offset=t, include_end=inc) if kw else L.after(t, inc)) if inc is not None else (L.after(offset=t) if kw else L.after(t))
+                want, what = _o_filter(rows, tp, bool(inc), False, True), "after"
         elif kind == "before":
-            t, inc = op[1], op[2]
+            t, inc, tp = _num(op[1]), op[2], _pl(op[1])
             if hold and op[3] is not None:
-                got, want, what = L.before(t, include_end=inc, include_head=op[3]), _o_filter(rows, t, inc, not op[3], False), "hold_before"
+                got = L.before(t, include_end=inc, include_head=op[3]) if inc is not None else L.before(t, include_head=op[3])
+                want, what = _o_filter(rows, tp, bool(inc), not op[3], False), "hold_before"
             else:
-                got = L.before(t, inc) if inc is not None else L.before(t)
-                want, what = _o_filter(rows, t, bool(inc), False, False), "before"
+                got = (L.before(offset=t, include_end=inc) if kw else L.before(t, inc)) if inc is not None else (L.before(offset=t) if kw else L.before(t))
+                want, what = _o_filter(rows, tp, bool(inc), False, False), "before"
         elif kind == "between":
-            lo, hi, ends = op[1], op[2], op[3]
+            lo, hi, ends = _num(op[1]), _num(op[2]), op[3]
+            lop, hip = _pl(op[1]), _pl(op[2])
             e = tuple(ends) if isinstance(ends, (list, tuple)) else ends
             e0, e1 = (e, e) if isinstance(e, bool) else (True, False) if e is None else e
             if hold and op[4] is not None:
                 head, tail = op[4], op[5]
-                got = L.between(lo, hi, include_ends=e, include_head=head, include_tail=tail) if e is not None else L.between(lo, hi, include_head=head, include_tail=tail)
-                want = _o_filter(_o_filter(rows, lo, e0, tail, True), hi, e1, not head, False)
+                if kw:
+                    got = L.between(lower_bound=lo, upper_bound=hi, include_ends=e, include_head=head, include_tail=tail) if e is not None else L.between(lower_bound=lo, upper_bound=hi, include_head=head, include_tail=tail)
+                else:
+                    got = L.between(lo, hi, e, head, tail) if e is not None else L.between(lo, hi, include_head=head, include_tail=tail)
+                want = _o_filter(_o_filter(rows, lop, e0, tail, True), hip, e1, not head, False)
                 what = "hold_between"
             else:
-                got = L.between(lo, hi, e) if e is not None else L.between(lo, hi)
-                want = _o_filter(_o_filter(rows, lo, e0, False, True), hi, e1, False, False)
+                if kw:
+                    got = L.between(lower_bound=lo, upper_bound=hi, include_ends=e) if e is not None else L.between(lower_bound=lo, upper_bound=hi)
+                else:
+                    got = L.between(lo, hi, e) if e is not None else L.between(lo, hi)
+                want = _o_filter(_o_filter(rows, lop, e0, False, True), hip, e1, False, False)
                 what = "between"
         else:
             raise ValueError(kind)
@@ -441,27 +530,44 @@ SLICES = [(0, 2, None), (1, None, None), (None, -1, None), (None, None, 2), (2, 
 ENDS = [[True, False], [False, True], [True, True], [False, False], True, False, None]
 
 
+# added: bounds given as python int / numpy scalars (the same numbers as above, so that they sit on rows), a very large bound
+NP50, NP100, NPI0 = {"np": "float64", "v": 50.0}, {"np": "float32", "v": 100.0}, {"np": "int64", "v": 0}
+TYPED_BOUNDS = [50, 0, NP50, NP100, NPI0, 1000000000.5]
+
+
 def _instances(kind, hold):
     if kind == "slice":
-        return [["slice", *s] for s in SLICES]
+        return [["slice", *s] for s in SLICES] + [["slice", {"np": "int64", "v": 1}, {"np": "int64", "v": 3}, None], ["slice", None, None, {"np": "int64", "v": -2}], ["slice", -1000, 1000, None]]
     if kind == "sorted":
-        return [["sorted", False], ["sorted", True], ["sorted", None]]
+        return [["sorted", False], ["sorted", True], ["sorted", None], ["sorted", True, "kw"], ["sorted", False, "kw"]]
     if kind == "append":
-        return [["append", f, False] for f in ("list", "empty_list", "item", "series", "dataframe", "self")] + [["append", "list", True], ["append", "item", True]]
+        return ([["append", f, False] for f in ("list", "empty_list", "item", "series", "dataframe", "self")] + [["append", "list", True], ["append", "item", True]]
+                + [["append", f, True] for f in ("self", "series", "dataframe", "empty_list")] + [["append", "list", False, "kw"]])
     if kind in ("after", "before"):
         out = [[kind, t, inc, None] for t in BOUNDS for inc in (False, True)] + [[kind, 50.0, None, None]]
         if hold:
             out += [[kind, t, inc, v] for t in BOUNDS[:3] for inc in (False, True) for v in (False, True)]
+        out += [[kind, t, inc, None] for t in TYPED_BOUNDS for inc in (False, True)]
+        out += [[kind, t, inc, None, "kw"] for t in (100.0, NP50) for inc in (False, True, None)]
+        if hold:
+            # the head / tail flag alone (include_end at its default), typed bounds
+            out += [[kind, t, None, v] for t in (50.0, 100.0, 0.0) for v in (False, True)]
+            out += [[kind, t, inc, v] for t in (50, NP100) for inc in (False, True) for v in (False, True)]
         return out
     if kind == "between":
         spans = [(0.0, 100.0), (50.0, 50.0), (100.0, 0.0), (-0.75, 250.25)]
+        typed = [(0, 100), (NPI0, NP100), (NP50, 50), (-1000000000.25, 1000000000.5)]
         out = []
         if not hold:
             out = [["between", lo, hi, e, None, None] for lo, hi in spans for e in ENDS]
+            out += [["between", lo, hi, e, None, None] for lo, hi in typed for e in ENDS[:4]]
+            out += [["between", lo, hi, e, None, None, "kw"] for lo, hi in spans[:2] for e in ENDS]
         else:
             # HoldList.between declares a tuple for include_ends
             out = [["between", lo, hi, e, None, None] for lo, hi in spans for e in ENDS if not isinstance(e, bool)]
             out += [["between", lo, hi, e, h, t] for lo, hi in spans[:2] for e in ENDS[:4] for h in (False, True) for t in (False, True)]
+            out += [["between", lo, hi, e, None, None] for lo, hi in typed for e in ENDS[:4]]
+            out += [["between", lo, hi, e, h, t, "kw"] for lo, hi in (spans[0], typed[1]) for e in ENDS[:4] + [None] for h in (False, True) for t in (False, True)]
         return out
     raise ValueError(kind)
 
@@ -521,13 +627,21 @@ def _core_instances(kind, hold):
     raise ValueError(kind)
 
 
-def _sequences(rng, hold, tier):
+def _sequences(rng, hold, tier, light=False):
     """Operation sequences.
     quick:    every sequence of kinds of length <= 2, two seeded parameter draws each, + 40 seeded sequences of length 3
     thorough: every parameterised instance alone, every pair of core instances, every sequence of kinds of length 3
-              (two seeded parameter draws each)"""
+              (two seeded parameter draws each)
+    light (the added contents): every kind alone (2 / 6 draws) + 30 / 400 seeded sequences of length 2-3"""
     inst = {k: _instances(k, hold) for k in KINDS}
     yield []
+    if light:
+        for a in KINDS:
+            for _ in range(2 if tier == "quick" else 6):
+                yield [rng.choice(inst[a])]
+        for _ in range(30 if tier == "quick" else 400):
+            yield [rng.choice(inst[rng.choice(KINDS)]) for _ in range(rng.choice((2, 3)))]
+        return
     if tier == "quick":
         for a in KINDS:
             for _ in range(2):
@@ -557,18 +671,21 @@ def _ops_for_game(game):
         rng = rep.rng
         classes = [c for c in _all_list_classes() if _game_of(c) == game]
         rep.bound = (
-            f"{len(classes)} list classes of {game} ({', '.join(c.__name__ for c in classes)}) x contents {list(CONTENTS)} x builds {BUILDS}; "
+            f"{len(classes)} list classes of {game} ({', '.join(c.__name__ for c in classes)}) x contents {list(CONTENTS)} ({', '.join(LIGHT_CONTENTS)}: int-typed, 1e9..1e12 / sub-ms, Cls.empty(3) rows; "
+            f"lighter: each kind alone + {'30' if rep.tier == 'quick' else '400'} seeded sequences of length 2-3) x builds {BUILDS} (default / permuted gappy / reversed / DUPLICATE row labels, other column order, dict of columns, copy); "
+            f"parameters incl. bounds as python int / numpy float64 / float32 / int64 and 1e9, numpy ints in slices, keyword-argument calls, hold head / tail flag alone; "
             + ("every sequence of operation kinds of length <= 2 over {slice, sorted, append, after, before, between} (2 seeded parameter draws each) + 40 seeded sequences of length 3 per (class, content)"
                if rep.tier == "quick" else
                "every parameterised operation alone, every pair of core parameterised operations, every sequence of kinds of length 3 (2 seeded parameter draws each) per (class, content)")
-            + "; after EVERY step: len, [i] for first/second/middle/last/negative/out-of-range i, iteration, first/last/first_last offset, hold head/tail"
+            + "; after EVERY step: len, [i] for first/second/middle/last/negative/out-of-range i, iteration, first/last/first_last offset, hold head/tail; "
+            "after EVERY operation: the receiver (and the operand of append) still holds the row sequence it held before the call"
         )
         rep.rule = "a case is (class, content, build, operation sequence); non-trivial when the content is not empty and there is at least one operation"
         # round robin over (class, content) so that a time cut never leaves a class unvisited
         gens = []
         for cls in classes:
             for content in CONTENTS:
-                gens.append([cls, content, _sequences(rng, _is_hold(cls), rep.tier), 0])
+                gens.append([cls, content, _sequences(rng, _is_hold(cls), rep.tier, light=content in LIGHT_CONTENTS), 0])
         alive = True
         while alive and not rep.extra.get("stopped_early"):
             alive = False
@@ -625,8 +742,10 @@ def _run_ctor(case):
     """case: dict(cls, ctor, n / content) -> [(what, detail)]"""
     import pandas as pd
 
+    import copy
+
     cls = _resolve(case["cls"])
-    decl = _declared(cls)
+    decl = copy.deepcopy(_declared(cls))  # own copies of list-valued defaults: the calls below must not be able to edit the oracle's
     item_cls = cls._item_class()
     ctor = case["ctor"]
     failed = []
@@ -640,6 +759,22 @@ def _run_ctor(case):
 
     if ctor == "empty":
         n = case["n"]
+        if case.get("after_editing_previous"):
+            # the same call made before in this process, and its result edited in place (every cell overwritten, list-valued
+            # cells extended): the next call must again give n rows of declared defaults
+            def edit_previous():
+                P = cls.empty(n)
+                for name, (dt, dv) in decl.items():
+                    if name not in P.df.columns:
+                        continue
+                    for cell in P.df[name].tolist():
+                        if isinstance(cell, list):
+                            cell.append("edited")
+                    if not isinstance(dv, (list, dict, set)):
+                        P.df[name] = [_value(name, dt, dv, 11)] * len(P.df)
+                return P
+
+            guard("empty_exact_fields", edit_previous)
         L = guard("empty_exact_fields", lambda: cls.empty(n))
         if L is not None:
             p = _fields_problem(L, decl)
@@ -704,6 +839,19 @@ def _run_ctor(case):
             arg, given, recs = ([] if case.get("n", 0) == 0 else {}), [], []
         else:
             arg = given
+        if case.get("after_editing_previous"):
+            # the same call made before in this process and the list-valued cells of its result extended in place
+            def edit_previous():
+                P = cls.from_dict(arg)
+                for name in P.df.columns:
+                    for cell in P.df[name].tolist():
+                        if isinstance(cell, list):
+                            cell.append("edited")
+
+            try:
+                edit_previous()
+            except Exception:  # noqa  (a raising call is reported by the call below)
+                pass
         L = guard("from_dict_exact_fields", lambda: cls.from_dict(arg))
         if L is not None:
             p = _fields_problem(L, decl)
@@ -731,6 +879,43 @@ def _run_ctor(case):
             # the exception came from a list-valued default: its own clause
             w, d = failed.pop()
             failed.append(("from_dict_list_default_filled", f"{ctor} without {drop}: {d}"))
+    elif ctor in ("from_dict_foreign", "from_dict_ragged", "from_dict_reordered"):
+        # inputs whose keys are not simply "all declared fields, in declared order, in every record"
+        recs = _content_rows(cls, case["content"])
+        form = case.get("form", "records")
+        rejected_ok = False
+        if ctor == "from_dict_foreign":
+            # a name that is not a declared field next to declared ones (misspelt / game-foreign / left-over label column).  The
+            # statement fixes the fields of whatever list comes back; a rejection (exception) is not a list and asserts nothing.
+            extra = case["extra"]
+            keep = list(decl) if case.get("keep") == "all" else ["offset"]
+            given = [{**{k: v for k, v in r.items() if k in keep}, extra: 7} for r in recs]
+            rejected_ok = True
+        elif ctor == "from_dict_ragged":
+            # every second record leaves out the non-offset fields (a legal list of dicts)
+            given = [({k: v for k, v in r.items() if k == "offset"} if i % 2 else dict(r)) for i, r in enumerate(recs)]
+        else:
+            given = [dict(reversed(list(r.items()))) for r in recs]
+        arg = {k: [r[k] for r in given] for k in given[0]} if form == "columns" else given
+        try:
+            L = cls.from_dict(arg)
+        except Exception as ex:  # noqa
+            L = None
+            if not rejected_ok:
+                failed.append(("from_dict_exact_fields", f"{ctor} ({form}): raised {type(ex).__name__}: {ex}"))
+        if L is not None:
+            p = _fields_problem(L, decl)
+            if p:
+                failed.append(("from_dict_exact_fields", f"{ctor} ({form}, given keys {sorted({k for r in given for k in r})}): {p}"))
+            g = _rows_of(L)
+            if len(g) != len(recs):
+                failed.append(("from_dict_rows", f"{ctor}: {len(g)} rows for {len(recs)} records"))
+            else:
+                for i, (gr, wr) in enumerate(zip(g, given)):
+                    bad = [k for k in wr if k in decl and (k not in gr or not _veq(gr[k], wr[k]))]
+                    if bad:
+                        failed.append(("from_dict_rows", f"{ctor}: row {i} fields {bad}: got {[gr.get(k) for k in bad]}, given {[wr[k] for k in bad]}"))
+                        break
     elif ctor in ("getitem", "from_series"):
         recs = _content_rows(cls, case["content"])
         L = guard("item_carries_row_values", lambda: _build_list(cls, case["content"], case.get("build", "items")))
@@ -745,6 +930,19 @@ def _run_ctor(case):
                     if m or type(it) is not item_cls:
                         failed.append(("item_carries_row_values", f"L[{i}] ({type(it).__name__}): {m}"))
                         break
+                    # the same position given as a numpy integer (as np.argmin / np.arange / len arithmetic produce): a plain
+                    # sequence accepts it (operator.index) and returns the same row
+                    import numpy as np
+
+                    for j in (np.int64(i), np.int32(i - len(rows))):
+                        try:
+                            it2 = L[j]
+                            m2 = _item_matches(it2, rows[i], decl) if type(it2) is item_cls else f"returned a {type(it2).__name__}"
+                        except Exception as ex:  # noqa
+                            m2 = f"raised {type(ex).__name__}: {ex}"
+                        if m2:
+                            failed.append(("getitem_numpy_int", f"L[{type(j).__name__}({int(j)})] on {len(rows)} rows: {m2}; the plain sequence of rows gives row {i} for that index"))
+                            break
                 else:
                     row = L.df.iloc[i]
                     it = guard("from_series_carries_row_values", lambda: item_cls.from_series(row))
@@ -776,26 +974,71 @@ def _run_ctor(case):
 @bounded("C16", note="constructors of every list class: empty(n), Cls([]), Cls([items]), Cls(item), Cls(list), Cls(df), from_dict (records / columns / partial / empty), L[i], Item.from_series: exactly the declared fields, n rows, given values / declared defaults")
 def tl_constructors(rep):
     classes = _all_list_classes()
-    rep.bound = f"{len(classes)} list classes found by walking TimedList.__subclasses__(): empty(n) n in 0,1,3,7; Cls([]); items/item/list/df, from_dict records/columns/partial/empty, getitem and from_series on the contents {list(CONTENTS)}"
+    rep.bound = (f"{len(classes)} list classes found by walking TimedList.__subclasses__(): empty(n) n in 0,1,3,7 and again (also from_dict) after the previous result was edited in place; Cls([]); items/item/list/df, "
+                 f"from_dict records/columns/partial/empty, from_dict with a key that is not a declared field of the class (made-up, misspelt, other case, 'index', fields of other classes) next to all / only one "
+                 f"declared field, ragged records, keys in reverse order; getitem (python int, numpy int64 / negative int32) and from_series on the contents {list(CONTENTS)} x builds {BUILDS[:3]} and 3 contents x builds {BUILDS[3:]}; "
+                 f"round robin over the classes, original and added cases interleaved")
     rep.rule = "a case is (class, constructor form, size or content); non-trivial when at least one row is built"
     rep.exhaustive = True
+    OLD_BUILDS, OLD_CONTENTS = BUILDS[:3], [c for c in CONTENTS if c not in LIGHT_CONTENTS]
+    per_class = []
     for cls in classes:
         cid = _cls_id(cls)
+        # (a) the original enumeration
         cases = [dict(cls=cid, ctor="empty", n=n) for n in (0, 1, 3, 7)] + [dict(cls=cid, ctor="empty_list")]
         cases += [dict(cls=cid, ctor="from_dict_empty", n=n) for n in (0, 1)]
-        for content in CONTENTS:
+        for content in OLD_CONTENTS:
             for ctor in ("items", "item", "list", "df", "from_dict_records", "from_dict_columns", "from_dict_partial"):
                 if content == "empty" and ctor in ("item", "from_dict_partial", "from_dict_columns"):
                     continue
                 cases.append(dict(cls=cid, ctor=ctor, content=content))
-            for b in BUILDS:
+            for b in OLD_BUILDS:
                 cases.append(dict(cls=cid, ctor="getitem", content=content, build=b))
                 cases.append(dict(cls=cid, ctor="from_series", content=content, build=b))
         # from_dict with every single declared field left out (defaults one by one)
         for name in _declared(cls):
             if name != "offset":
                 cases.append(dict(cls=cid, ctor="from_dict_partial", content="negative_fractional", drop=[name]))
-        for case in cases:
+        # (b) added dimensions
+        new = [dict(cls=cid, ctor="empty", n=n, after_editing_previous=True) for n in (2, 3)]
+        new += [dict(cls=cid, ctor="from_dict_partial", content="negative_fractional", after_editing_previous=True),
+                dict(cls=cid, ctor="from_dict_records", content="duplicates", after_editing_previous=True)]
+        # from_dict with a key that is not a declared field of THIS class, next to declared ones
+        others = sorted({n for c2 in classes for n in _declared(c2)} - set(_declared(cls)))
+        for k, extra in enumerate(["not_a_field", "offsets", "index", "Offset"] + others[:3]):
+            new.append(dict(cls=cid, ctor="from_dict_foreign", content="negative_fractional", extra=extra, form="records", keep="all"))
+            new.append(dict(cls=cid, ctor="from_dict_foreign", content="negative_fractional", extra=extra, form="columns", keep=("offset", "all")[k % 2]))
+            new.append(dict(cls=cid, ctor="from_dict_foreign", content="duplicates", extra=extra, form="records", keep="offset"))
+        new.append(dict(cls=cid, ctor="from_dict_foreign", content="single", extra="not_a_field", form="records", keep="all"))
+        for content in ("negative_fractional", "duplicates", "int_offsets"):
+            new.append(dict(cls=cid, ctor="from_dict_ragged", content=content))
+            for form in ("records", "columns"):
+                new.append(dict(cls=cid, ctor="from_dict_reordered", content=content, form=form))
+        for content in LIGHT_CONTENTS:
+            for ctor in ("items", "item", "list", "df", "from_dict_records", "from_dict_columns", "from_dict_partial"):
+                new.append(dict(cls=cid, ctor=ctor, content=content))
+            for b in OLD_BUILDS:
+                new.append(dict(cls=cid, ctor="getitem", content=content, build=b))
+                new.append(dict(cls=cid, ctor="from_series", content=content, build=b))
+        for b in BUILDS[3:]:
+            for content in ("negative_fractional", "duplicates", "int_offsets"):
+                new.append(dict(cls=cid, ctor="getitem", content=content, build=b))
+                new.append(dict(cls=cid, ctor="from_series", content=content, build=b))
+        # interleave: two original cases, one added case, ... so that a time cut keeps both kinds
+        mixed, i, j = [], 0, 0
+        while i < len(cases) or j < len(new):
+            mixed += cases[i:i + 2] + new[j:j + 1]
+            i, j = i + 2, j + 1
+        per_class.append((cls, mixed))
+    # round robin over the classes so that a time cut never leaves a class unvisited
+    k, alive = 0, True
+    while alive and rep.exhaustive:
+        alive = False
+        for cls, cases in per_class:
+            if k >= len(cases):
+                continue
+            alive = True
+            case = cases[k]
             if rep.out_of_time(45, 300):
                 rep.exhaustive = False
                 break
@@ -808,6 +1051,9 @@ def tl_constructors(rep):
                 cl.setdefault(what, [])
                 if cls.__name__ not in cl[what]:
                     cl[what].append(cls.__name__)
+        k += 1
+    rep.extra["cases_per_class_visited"] = k
+    rep.extra["cases_per_class"] = max(len(c) for _, c in per_class) if per_class else 0
     rep.extra["classes"] = [c.__name__ for c in classes]
 
 
